@@ -40,6 +40,10 @@ def _issub(a, b):
     try: return issubclass(a, b)
     except Exception: return False
 
+def _isinst(v, b):
+    try: return isinstance(v, b)
+    except Exception: return False
+
 class Universe:
     """Registry of z3 constants standing for concrete Python objects found in real scopes (classes, literal values,
     sentinels, user callables), plus the axioms that follow from the REAL objects (class graph via issubclass,
@@ -82,8 +86,13 @@ class Universe:
                 try: sub = issubclass(a, b)
                 except Exception: continue
                 if sub:
-                    ax.append(z3.ForAll([y], z3.Implies(inst(y, za), inst(y, zb))))
-                    ax.append(z3.ForAll([c], z3.Implies(subc(c, za), subc(c, zb))))
+                    # issubclass() is not transitive for structural ABCs (issubclass(object, Hashable), issubclass(Mapping, object), but not
+                    # issubclass(Mapping, Hashable): Mapping sets __hash__ = None).  The closure law for (a, b) is only stated when no
+                    # registered class or value contradicts it in CPython; the ground facts below are stated either way.
+                    if any(_issub(k, a) and not _issub(k, b) for _, k in cs) or any(_isinst(v, a) and not _isinst(v, b) for _, v in vs): pass
+                    else:
+                        ax.append(z3.ForAll([y], z3.Implies(inst(y, za), inst(y, zb))))
+                        ax.append(z3.ForAll([c], z3.Implies(subc(c, za), subc(c, zb))))
                 ax.append(subc(za, zb) == z3.BoolVal(bool(sub)))
             ax.append(subc(za, za))
             # a class object is an instance of its metaclass / of `type`
